@@ -93,7 +93,8 @@ def replay_configs(order, blocked, lens):
     import copy
     from cardutil import mciipm
     from cardutil.config import config
-    cfgB = copy.deepcopy(config['bit_config'])
+    from . import packaged
+    cfgB = packaged.bit_config_copy()
     del cfgB['48']['field_processor']
     nA, nB, nT = lens
     msgA = {'MTI': '1240', 'DE2': '4444555566667777', 'PDS0023': 'a' * nA}
